@@ -69,8 +69,16 @@ def F(x):
 _FN_MEMO: dict = {}
 
 
-def mkfn(e, arity):
-    """a real Python function for `e` (memoised: pure functions may be shared between models)"""
+def mkfn(e, arity, sig=None):
+    """a real Python function for `e` (memoised: pure functions may be shared between models).
+    Without `sig` it has max(arity, highest argument index + 1) positional parameters; with
+    sig = [nargs, ndefaults|null, nkwonly, varargs] it has exactly that signature (what `inspect.getfullargspec`
+    reports): the last `ndefaults` positional parameters and all keyword-only ones default to 0.0."""
+    if sig is not None:
+        if sig[1:] == [None, 0, False] and sig[0] >= fexpr.max_arg(e) + 1:
+            arity = sig[0]  # a plain function: the same (memoised) object as without a stated signature
+        else:
+            return mkfn_sig(e, sig)
     arity = max(arity, fexpr.max_arg(e) + 1)
     key = (json.dumps(e), arity)
     f = _FN_MEMO.get(key)
@@ -79,6 +87,52 @@ def mkfn(e, arity):
         f._mxl_e = e
         _FN_MEMO[key] = f
     return f
+
+
+def mkfn_sig(e, sig):
+    key = ("sig", json.dumps(e), json.dumps(sig))
+    f = _FN_MEMO.get(key)
+    if f is not None:
+        return f
+    nargs, nd, kw, va = sig
+    nd0 = nd or 0
+    params = [f"a{i}" + ("=0.0" if i >= nargs - nd0 else "") for i in range(nargs)]
+    if va:
+        params.append("*rest")
+    elif kw:
+        params.append("*")
+    params += [f"k{i}=0.0" for i in range(kw)]
+    n = max(nargs, fexpr.max_arg(e) + 1)
+    names = [f"a{i}" for i in range(n)]
+    pre = "".join(f"    a{i} = rest[{i - nargs}]\n" for i in range(nargs, n)) if va else ""
+    src = f"def f({', '.join(params)}):\n{pre}    return {fexpr.src_expr(e, names)}\n"
+    ns: dict = {}
+    exec(compile(src, "<mxlverif-c03-sig>", "exec"), ns)  # noqa: S102
+    f = ns["f"]
+    f._mxl_e = e
+    f._mxl_sig = list(sig)
+    _FN_MEMO[key] = f
+    return f
+
+
+def fn_of(fj, arity=None):
+    """FN = {"args", "e", ["sig"]} -> function"""
+    return mkfn(fj["e"], len(fj["args"]) if arity is None else arity, fj.get("sig"))
+
+
+def bare_fn(x, n_new_args):
+    """the function argument of update_derived / update_reaction: a bare FExpr or {"e": FExpr, "sig": SIG};
+    without "sig" it gets max(number of NEW args, highest argument index + 1) positional parameters"""
+    if isinstance(x, dict):
+        return mkfn(x["e"], n_new_args, x.get("sig"))
+    return mkfn(x, n_new_args)
+
+
+def bare_parts(x):
+    """(FExpr, sig|None) of the function argument of an update op"""
+    if isinstance(x, dict):
+        return x["e"], x.get("sig")
+    return x, None
 
 
 def mkmulti(es, arity):
@@ -97,7 +151,7 @@ def mkval(vj):
 
     if "v" in vj:
         return F(vj["v"])
-    return InitialAssignment(fn=mkfn(vj["ia"]["e"], len(vj["ia"]["args"])), args=list(vj["ia"]["args"]))
+    return InitialAssignment(fn=fn_of(vj["ia"]), args=list(vj["ia"]["args"]))
 
 
 def mkpar(vj):
@@ -117,6 +171,24 @@ def clean_val(vj):
     """a VAL without the transport-only "obj" mark"""
     if isinstance(vj, dict) and "obj" in vj:
         return {k: v for k, v in vj.items() if k != "obj"}
+    return vj
+
+
+def default_sig(e, n_args):
+    return [max(n_args, fexpr.max_arg(e) + 1), None, 0, False]
+
+
+def with_sig(fj):
+    """FN with its signature spelled out (what `snapshot` reads back from the function object)"""
+    if "sig" in fj:
+        return fj
+    return {**fj, "sig": default_sig(fj["e"], len(fj["args"]))}
+
+
+def val_with_sig(vj):
+    vj = clean_val(vj)
+    if isinstance(vj, dict) and "ia" in vj:
+        return {**vj, "ia": with_sig(vj["ia"])}
     return vj
 
 
@@ -295,27 +367,27 @@ def apply_mut(m, op):
     elif k == "update_variables":
         m.update_variables({n: mkvar(v) for n, v in op[1]})
     elif k == "add_derived":
-        m.add_derived(op[1], fn=mkfn(op[2]["e"], len(op[2]["args"])), args=list(op[2]["args"]))
+        m.add_derived(op[1], fn=fn_of(op[2]), args=list(op[2]["args"]))
     elif k == "update_derived":
-        ar = len(op[3]) if op[3] is not None else (len(m._derived[op[1]].args) if op[1] in m._derived else 0)
-        m.update_derived(op[1], None if op[2] is None else mkfn(op[2], ar), args=None if op[3] is None else list(op[3]))
+        ar = len(op[3]) if op[3] is not None else 0
+        m.update_derived(op[1], None if op[2] is None else bare_fn(op[2], ar), args=None if op[3] is None else list(op[3]))
     elif k == "remove_derived":
         m.remove_derived(op[1])
     elif k == "add_reaction":
         r = op[2]
-        m.add_reaction(op[1], fn=mkfn(r["e"], len(r["args"])), args=list(r["args"]), stoichiometry=mkst(r["st"]))
+        m.add_reaction(op[1], fn=fn_of(r), args=list(r["args"]), stoichiometry=mkst(r["st"]))
     elif k == "update_reaction":
-        ar = len(op[3]) if op[3] is not None else (len(m._reactions[op[1]].args) if op[1] in m._reactions else 0)
+        ar = len(op[3]) if op[3] is not None else 0
         m.update_reaction(
             op[1],
-            None if op[2] is None else mkfn(op[2], ar),
+            None if op[2] is None else bare_fn(op[2], ar),
             args=None if op[3] is None else list(op[3]),
             stoichiometry=None if op[4] is None else mkst(op[4]),
         )
     elif k == "remove_reaction":
         m.remove_reaction(op[1])
     elif k == "add_readout":
-        m.add_readout(op[1], fn=mkfn(op[2]["e"], len(op[2]["args"])), args=list(op[2]["args"]))
+        m.add_readout(op[1], fn=fn_of(op[2]), args=list(op[2]["args"]))
     elif k == "remove_readout":
         m.remove_readout(op[1])
     elif k == "add_surrogate":
@@ -365,7 +437,15 @@ def singular_ops(op):
 
 
 def _fn_wire(obj):
-    return {"args": list(obj.args), "e": obj.fn._mxl_e}
+    w = {"args": list(obj.args), "e": obj.fn._mxl_e}
+    # the number of positional parameters is part of the function: a fresh model gets the same function
+    sig = getattr(obj.fn, "_mxl_sig", None)
+    if sig is None:
+        import inspect
+
+        sig = [len(inspect.getfullargspec(obj.fn).args), None, 0, False]
+    w["sig"] = sig
+    return w
 
 
 def _val_wire(v):
@@ -380,7 +460,7 @@ def _coef_wire(v):
     from mxlpy.types import Derived
 
     if isinstance(v, Derived):
-        return _fn_wire(v)
+        return {"args": list(v.args), "e": v.fn._mxl_e}
     return {"c": C.num(v)}
 
 
